@@ -64,147 +64,25 @@ Proof.
   - apply IH; assumption.
 Qed.
 
-(* ------------------------------------------------------------------ the hardened scanner agrees with the old one
-   wherever the old one succeeds (Col26.v mirrors the pre-hardening code) *)
+(* ------------------------------------------------------------------ the A1 scanner: Col26.v (hardened code) *)
 Lemma sat64_id : forall x, x <= U64MAX -> sat64 x = x.
 Proof. intros x H. unfold sat64. lia. Qed.
 
-Lemma mkst_eq : forall a b c d a' b' c', a = a' -> b = b' -> c = c' ->
-  @Ok scan_state {| s_row := a; s_col := b; s_pow := c; s_readrow := d |} =
-  Ok {| s_row := a'; s_col := b'; s_pow := c'; s_readrow := d |}.
-Proof. intros. subst. reflexivity. Qed.
-
-Definition sbound (s : scan_state) : Prop :=
-  s_row s <= U32MAX /\ s_col s <= U32MAX /\ s_pow s <= U32MAX.
-
-Lemma scan_letter_sim : forall base c s s', sbound s -> scan_letter base c s = Ok s' ->
-  xscan_letter base c s = Ok s' /\ sbound s'.
-Proof.
-  intros base c s s' [B1 [B2 B3]] H. unfold scan_letter, xscan_letter in *.
-  destruct (s_readrow s) eqn:R.
-  - destruct (s_row s =? 0); [discriminate|]. cbn [obind] in *. cbn [s_pow s_col s_row] in *.
-    unfold mul32, add32 in H.
-    destruct ((c - base + 1) * 1 <=? U32MAX) eqn:E1; [|discriminate]. cbn [obind] in H.
-    destruct (s_col s + (c - base + 1) * 1 <=? U32MAX) eqn:E2; [|discriminate]. cbn [obind] in H.
-    destruct (1 * 26 <=? U32MAX) eqn:E3; [|discriminate]. cbn [obind] in H.
-    inversion H; subst s'. apply N.leb_le in E1, E2, E3. unfold U32MAX, U64MAX in *.
-    split; [apply mkst_eq; unfold sat64, U64MAX; lia|].
-    unfold sbound. cbn [s_row s_col s_pow]. unfold U32MAX. lia.
-  - cbn [obind] in *. unfold mul32, add32 in H.
-    destruct ((c - base + 1) * s_pow s <=? U32MAX) eqn:E1; [|discriminate]. cbn [obind] in H.
-    destruct (s_col s + (c - base + 1) * s_pow s <=? U32MAX) eqn:E2; [|discriminate]. cbn [obind] in H.
-    destruct (s_pow s * 26 <=? U32MAX) eqn:E3; [|discriminate]. cbn [obind] in H.
-    inversion H; subst s'. apply N.leb_le in E1, E2, E3. unfold U32MAX, U64MAX in *.
-    split; [apply mkst_eq; unfold sat64, U64MAX; lia|].
-    unfold sbound. cbn [s_row s_col s_pow]. unfold U32MAX. lia.
-Qed.
-
-Lemma scan_char_sim : forall c s s', sbound s -> scan_char c s = Ok s' ->
-  xscan_char c s = Ok s' /\ sbound s'.
-Proof.
-  intros c s s' B H. pose proof B as [B1 [B2 B3]]. unfold scan_char, xscan_char in *.
-  destruct (is_digit c).
-  - destruct (s_readrow s); [|discriminate]. unfold mul32, add32 in H.
-    destruct ((c - ch_0) * s_pow s <=? U32MAX) eqn:E1; [|discriminate]. cbn [obind] in H.
-    destruct (s_row s + (c - ch_0) * s_pow s <=? U32MAX) eqn:E2; [|discriminate]. cbn [obind] in H.
-    destruct (s_pow s * 10 <=? U32MAX) eqn:E3; [|discriminate]. cbn [obind] in H.
-    inversion H; subst s'. apply N.leb_le in E1, E2, E3. unfold U32MAX, U64MAX in *.
-    split; [apply mkst_eq; unfold sat64, U64MAX; lia|].
-    unfold sbound. cbn [s_row s_col s_pow]. unfold U32MAX. lia.
-  - destruct (is_upper c); [apply scan_letter_sim; assumption|].
-    destruct (is_lower c); [apply scan_letter_sim; assumption|discriminate].
-Qed.
-
-Lemma scan_loop_sim : forall rs s s', sbound s -> scan_loop rs s = Ok s' ->
-  xscan_loop rs s = Ok s' /\ sbound s'.
-Proof.
-  induction rs as [|c rs IH]; intros s s' B H.
-  - cbn in *. inversion H; subst. split; [reflexivity|exact B].
-  - cbn [scan_loop xscan_loop] in *. destruct (scan_char c s) as [s1| | |] eqn:E; try discriminate.
-    destruct (scan_char_sim c s s1 B E) as [X B1]. rewrite X. cbn [obind] in *. apply IH; assumption.
-Qed.
-
-Lemma groc_sim : forall range x, get_row_and_optional_column range = Ok x ->
-  get_row_and_optional_column_x range = Ok x.
-Proof.
-  intros range x H. unfold get_row_and_optional_column, get_row_and_optional_column_x in *.
-  destruct (scan_loop (rev range) scan_init) as [s| | |] eqn:E; try discriminate.
-  assert (B0 : sbound scan_init) by (unfold sbound, scan_init, U32MAX; cbn; lia).
-  destruct (scan_loop_sim _ _ _ B0 E) as [X [B1 [B2 _]]]. rewrite X. cbn [obind] in *.
-  destruct (s_row s =? 0); [discriminate|].
-  assert (R : (U32MAX <? s_row s - 1) = false) by (apply N.ltb_ge; lia). rewrite R.
-  destruct (s_col s =? 0); [exact H|].
-  assert (C : (U32MAX <? s_col s - 1) = false) by (apply N.ltb_ge; lia). rewrite C. exact H.
-Qed.
-
-Lemma get_row_column_sim : forall range x, get_row_column range = Ok x -> get_row_column_x range = Ok x.
-Proof.
-  intros range x H. unfold get_row_column, get_row_column_x in *.
-  destruct (get_row_and_optional_column range) as [rc| | |] eqn:E; try discriminate.
-  rewrite (groc_sim _ _ E). exact H.
-Qed.
-
-Lemma get_row_sim : forall range x, get_row range = Ok x -> get_row_x range = Ok x.
-Proof.
-  intros range x H. unfold get_row, get_row_x in *.
-  destruct (get_row_and_optional_column range) as [rc| | |] eqn:E; try discriminate.
-  rewrite (groc_sim _ _ E). exact H.
-Qed.
-
-Lemma collect_parts_sim : forall ps xs, collect_parts ps = Ok xs -> collect_parts_x ps = Ok xs.
-Proof.
-  induction ps as [|p ps IH]; intros xs H; [exact H|]. cbn [collect_parts collect_parts_x] in *.
-  destruct (get_row_column p) as [x| | |] eqn:E; try discriminate.
-  rewrite (get_row_column_sim _ _ E). cbn [obind] in *.
-  destruct (collect_parts ps) as [ys| | |]; try discriminate. rewrite (IH _ eq_refl). exact H.
-Qed.
-
-Lemma get_dimension_sim : forall dm x, get_dimension dm = Ok x -> get_dimension_x dm = Ok x.
-Proof.
-  intros dm x H. unfold get_dimension, get_dimension_x in *.
-  destruct (collect_parts (split_on ch_colon dm [])) as [parts| | |] eqn:E; try discriminate.
-  rewrite (collect_parts_sim _ _ E). cbn [obind] in *.
-  destruct parts as [|p0 [|p1 [|p2 parts]]]; try exact H.
-  destruct (sub32 (fst p1) (fst p0)); try discriminate. cbn [obind] in H.
-  destruct (sub32 (snd p1) (snd p0)); try discriminate. exact H.
-Qed.
-
-(* the hardened scanner never panics, on any input *)
-Lemma xscan_loop_total : forall rs s, xscan_loop rs s <> Panic /\ xscan_loop rs s <> OutOfFuel.
-Proof.
-  induction rs as [|c rs IH]; intros s; [split; discriminate|]. cbn [xscan_loop].
-  assert (C : (exists s', xscan_char c s = Ok s') \/ (exists e, xscan_char c s = Err e)).
-  { unfold xscan_char, xscan_letter.
-    destruct (is_digit c); [destruct (s_readrow s); eauto|].
-    destruct (is_upper c); [destruct (s_readrow s); [destruct (s_row s =? 0)|]; cbn [obind]; eauto|].
-    destruct (is_lower c); [destruct (s_readrow s); [destruct (s_row s =? 0)|]; cbn [obind]; eauto|].
-    eauto. }
-  destruct C as [[s' E]|[e E]]; rewrite E; cbn [obind]; [apply IH|split; discriminate].
-Qed.
-
+(* the scanner never panics, on any input (Col26_proofs, the first conjunct of C14_no_panic_a1) *)
 Theorem scanner_no_panic : forall range,
-  get_row_and_optional_column_x range <> Panic /\ get_row_and_optional_column_x range <> OutOfFuel.
-Proof.
-  intros range. unfold get_row_and_optional_column_x.
-  destruct (xscan_loop_total (rev range) scan_init) as [P F].
-  destruct (xscan_loop (rev range) scan_init) as [s| | |]; cbn [obind]; try contradiction;
-    try (split; discriminate).
-  destruct (s_row s =? 0); [split; discriminate|].
-  destruct (U32MAX <? s_row s - 1); [split; discriminate|].
-  destruct (s_col s =? 0); [split; discriminate|].
-  destruct (U32MAX <? s_col s - 1); split; discriminate.
-Qed.
+  get_row_and_optional_column range <> Panic /\ get_row_and_optional_column range <> OutOfFuel.
+Proof. exact get_row_and_optional_column_total. Qed.
 
 (* ------------------------------------------------------------------ (1) A1 names *)
 Theorem a1_roundtrip_full : forall row col,
   row + 1 < ROW_LIMIT -> col < COL_LIMIT ->
-  get_row_and_optional_column_x (a1_name row col) = Ok (row, Some col) /\
-  get_row_and_optional_column_x (map to_lower (a1_name row col)) = Ok (row, Some col) /\
+  get_row_and_optional_column (a1_name row col) = Ok (row, Some col) /\
+  get_row_and_optional_column (map to_lower (a1_name row col)) = Ok (row, Some col) /\
   ~ In ch_dollar (a1_name row col).
 Proof.
   intros row col Hr Hc. split; [|split].
-  - apply groc_sim. apply get_row_and_optional_column_a1_name; assumption.
-  - apply groc_sim. rewrite get_row_and_optional_column_lower.
+  - apply get_row_and_optional_column_a1_name; assumption.
+  - rewrite get_row_and_optional_column_lower.
     apply get_row_and_optional_column_a1_name; assumption.
   - intros H. unfold a1_name in H. apply in_app_or in H. destruct H as [H|H].
     + pose proof (letters_upper col) as F. rewrite Forall_forall in F. specialize (F _ H).
@@ -214,9 +92,9 @@ Proof.
 Qed.
 
 Lemma cell_ref_ok : forall row c, row + 1 < ROW_LIMIT -> ec_col c < COL_LIMIT ->
-  get_row_column_x (cell_ref row c) = Ok (row, ec_col c).
+  get_row_column (cell_ref row c) = Ok (row, ec_col c).
 Proof.
-  intros row c Hr Hc. apply get_row_column_sim. unfold cell_ref. destruct (ec_lower c).
+  intros row c Hr Hc. unfold cell_ref. destruct (ec_lower c).
   - rewrite get_row_column_lower. apply get_row_column_a1_name; assumption.
   - apply get_row_column_a1_name; assumption.
 Qed.
@@ -614,7 +492,7 @@ Proof.
                SCont (ShOuter (er_row r) 0)).
   { cbn [XlsxSheet.cells_step]. loc. change (str_eqb n_row n_row) with true. cbn iota.
     rewrite row_attrs_r by exact Hextra. destruct (er_explicit r).
-    - rewrite (get_row_sim _ _ (get_row_dec _ Hrow)). reflexivity.
+    - rewrite (get_row_dec _ Hrow). reflexivity.
     - cbn [orb] in Himp. apply N.eqb_eq in Himp. rewrite Himp. reflexivity. }
   cbn [XlsxSheet.cells_run]. rewrite S1.
   rewrite junk_skip by exact Hjunk0.
@@ -693,7 +571,7 @@ Proof.
     cbn [XmlText.get_attribute]. change (str_eqb a_ref a_ref) with true. cbn iota.
     cbn [legal_dim] in Hl. unfold pos_ok in Hl. apply andb_split in Hl. destruct Hl as [H1 H2].
     apply N.ltb_lt in H1, H2.
-    rewrite (get_dimension_sim _ _ (@get_dimension_single (fst p) (snd p) H1 H2)). cbn [obind].
+    rewrite (@get_dimension_single (fst p) (snd p) H1 H2). cbn [obind].
     eexists. reflexivity.
   - unfold elem. cbn [app reader_new_loop]. loc.
     change (str_eqb n_dimension n_dimension) with true. cbn iota.
@@ -703,7 +581,7 @@ Proof.
     apply andb_split in Hl. destruct Hl as [H1 H2].
     apply N.ltb_lt in H1, H2. apply N.leb_le in H3, H4.
     pose proof (@get_dimension_pair (fst s) (snd s) (fst e) (snd e) H3 H4 H1 H2) as G.
-    cbn [app] in G. rewrite (get_dimension_sim _ _ G). cbn [obind].
+    cbn [app] in G. rewrite G. cbn [obind].
     eexists. reflexivity.
 Qed.
 
@@ -1502,26 +1380,8 @@ Qed.
 Lemma total_ok : forall A (a : A), total (Ok a). Proof. split; discriminate. Qed.
 Lemma total_err : forall A e, total (@Err A e). Proof. split; discriminate. Qed.
 
-Lemma get_row_column_x_total : forall r, total (get_row_column_x r).
-Proof.
-  intros r. unfold get_row_column_x. apply total_bind; [apply scanner_no_panic|].
-  intros [a [c|]]; cbn [snd]; [apply total_ok|apply total_err].
-Qed.
-Lemma get_row_x_total : forall r, total (get_row_x r).
-Proof.
-  intros r. unfold get_row_x. apply total_bind; [apply scanner_no_panic|]. intros a. apply total_ok.
-Qed.
-Lemma collect_parts_x_total : forall ps, total (collect_parts_x ps).
-Proof.
-  induction ps as [|p ps IH]; [apply total_ok|]. cbn [collect_parts_x].
-  apply total_bind; [apply get_row_column_x_total|]. intros x.
-  apply total_bind; [exact IH|]. intros xs. apply total_ok.
-Qed.
-Lemma get_dimension_x_total : forall dm, total (get_dimension_x dm).
-Proof.
-  intros dm. unfold get_dimension_x. apply total_bind; [apply collect_parts_x_total|].
-  intros [|p0 [|p1 [|p2 ps]]]; first [apply total_ok | apply total_err].
-Qed.
+(* get_row_column / get_row / get_dimension: Col26_proofs.get_row_column_total, get_row_total,
+   get_dimension_total (statements of the form [total _]) *)
 
 Lemma reader_new_total : forall evs sht d, total (reader_new_loop sht d evs).
 Proof.
@@ -1529,7 +1389,7 @@ Proof.
   destruct e as [n a|n|s|s|]; cbn [reader_new_loop]; try apply IH.
   destruct (is_local n_dimension n).
   - destruct (get_attribute a a_ref); [|apply total_err].
-    apply total_bind; [apply get_dimension_x_total|]. intros d'. apply IH.
+    apply total_bind; [apply get_dimension_total|]. intros d'. apply IH.
   - destruct (is_local n_sheetData n); [apply total_ok|apply IH].
 Qed.
 
@@ -1572,10 +1432,10 @@ Proof.
   - destruct e as [n a|n|s|s|]; try discriminate.
     + destruct (is_local n_row n).
       * destruct (get_attribute a a_r); [|discriminate]. apply lift_sh_total.
-        apply total_bind; [apply get_row_x_total|]. intros r. apply total_ok.
+        apply total_bind; [apply get_row_total|]. intros r. apply total_ok.
       * destruct (is_local n_c n); [|discriminate].
         destruct (get_attribute a a_r); [|discriminate]. apply lift_sh_total.
-        apply total_bind; [apply get_row_column_x_total|]. intros r. apply total_ok.
+        apply total_bind; [apply get_row_column_total|]. intros r. apply total_ok.
     + destruct (is_local n_row n); [destruct (row + 1 <=? U32MAX); discriminate|].
       destruct (is_local n_sheetData n); discriminate.
   - pose proof (cc_step_no_boom pf en a cst e). destruct (cc_step pf en a cst e); try discriminate.
